@@ -34,7 +34,41 @@ def oracle_capacity_and_idle(case, lines, runner=None):
         prev = (snap, t)
     return fails[:3]
 
+def oracle_grant_order(case, lines, runner=None):
+    """a request is never granted while an earlier-ranked request of the same resource keeps waiting"""
+    fails = []
+    info = {n[1]: n for n in runner.notes if n[0] == 'req'}
+    def rank(lab, kind):
+        n = info.get(lab)
+        if n is None:
+            return None
+        return (lab,) if kind == 'resource' else (n[3], n[4], not n[5], lab)
+    prev = None
+    for l in lines:
+        if not l.startswith('S '):
+            continue
+        body, t = l[2:].rsplit(' @', 1)
+        snap = []
+        for p in body.split(' | '):
+            m = re.match(r'u\[(.*?)\] q\[(.*?)\]', p)
+            snap.append(None if not m else ([int(x) for x in m.group(1).split(',') if x], [int(x) for x in m.group(2).split(',') if x]))
+        if prev is not None:
+            for ri, (a, b) in enumerate(zip(prev, snap)):
+                if not a or not b:
+                    continue
+                kind = case.res[ri][0]
+                granted = [x for x in b[0] if x not in a[0] and x in a[1]]
+                still = [x for x in b[1] if x in a[1]]
+                for g in granted:
+                    for w in still:
+                        rg, rw = rank(g, kind), rank(w, kind)
+                        if rg is not None and rw is not None and rw < rg:
+                            fails.append({'what': f'request {g} (rank {rg}) was granted while request {w} (rank {rw}) of the same {kind} kept waiting',
+                                          'signature': 'res-grant-order'})
+        prev = snap
+    return fails[:3]
+
 def run(ctx):
-    return kprops.run_kernel(ctx, 'C06', SPEC, 1500, 40000, oracles=[oracle_capacity_and_idle],
+    return kprops.run_kernel(ctx, 'C06', SPEC, 1500, 40000, oracles=[oracle_capacity_and_idle, oracle_grant_order],
                              nontrivial=lambda c, lines: any('q[' in l and 'q[]' not in l for l in lines),
                              rule='seeded request/hold/release/cancel/with-exit histories of 2-8 processes on 1-2 resources of the three classes; non-trivial = distinct history in which some request had to queue')
